@@ -97,7 +97,7 @@ def resetM (cfg : GenCfg) (n : Node) (f : Form) (v : Val) : ResetOut :=
      | .panic => .panic)
   | .nilPtr | .ptrNilPtr =>
     -- origin == nil: the first write through it panics; a map or slice root reads `len(*origin)`
-    .panic
-  | .nilPtrPtr => .panic
+    if cfg.nilRootPanics then .panic else .unsupported
+  | .nilPtrPtr => if cfg.nilRootPanics then .panic else .unsupported
 
 end Inspector
